@@ -426,6 +426,69 @@ fn case_sequence(t: &mut Tape, st: &mut Stats) -> Verdict {
     Verdict::Pass(Some(fp(&(&script, &lists))))
 }
 
+
+/// (after-failures) a wrapped call does not depend on how many wrapped calls before it went wrong: 1..100 alias / not
+/// calls whose rebuilt line cannot be parsed (a value of the known class leading-quote; their own outcome is not
+/// judged), then a call with plain values that must receive its arguments and decide by its answer.
+fn case_after_failures(t: &mut Tape, st: &mut Stats) -> Verdict {
+    let failures = 1 + t.below(100);
+    let use_alias = t.chance(2, 3);
+    let mut script = String::from("bad = put 0\nalias al cap\n");
+    for _ in 0..failures {
+        script.push_str(if use_alias { "x = al ${bad}\n" } else { "x = not cap ${bad}\n" });
+    }
+    script.push_str("x = unset x\np = put 1\nq = put 2\nd = cap ${p} ${q}\n");
+    let wrapper = *t.pick_ref(&[Wrapper::Alias, Wrapper::Alias, Wrapper::Not, Wrapper::If]);
+    match wrapper {
+        Wrapper::Alias => script.push_str("r = al ${p} ${q}\n"),
+        Wrapper::Not => script.push_str("r = not cap ${p} ${q}\n"),
+        _ => script.push_str("if cap ${p} ${q}\n    emit branch T\nelse\n    emit branch F\nend\n"),
+    }
+    script.push_str("emit done\n");
+    let vals = vec![compose_plain(t), compose_plain(t)];
+    hz_reset();
+    let ans = if t.flip() { "true" } else { "false" };
+    with_hz(|h| {
+        h.side = vec!["\"x".to_string(), vals[0].clone(), vals[1].clone()];
+        // the failing calls never reach the command; should one reach it, it is answered like the others
+        h.cap_answers = vec![ans.to_string(); 2 + failures + 2];
+    });
+    let out = run_text(&script, sdk_context(), 60_000, None);
+    if failures >= 64 {
+        st.class("at-least-64-failed-wrapped-calls-before");
+    }
+    let d = |what: &str, extra: serde_json::Value| json!({"failed_wrapped_calls_before": failures, "failing_calls_through": if use_alias { "alias" } else { "not" }, "final_call": format!("{:?}", wrapper), "values": vals, "script_tail": script.lines().rev().take(9).collect::<Vec<_>>().into_iter().rev().collect::<Vec<_>>(), "mismatch": what, "detail": extra});
+    let ctx = match out.result {
+        Ok(c) => c,
+        Err(e) => return fail("C09/after-failures/run-error", d("run failed", json!(format!("{:?}", e)))),
+    };
+    let trace = with_hz(|h| h.trace.clone());
+    let caps: Vec<&Event> = trace.iter().filter(|e| e.cmd == "cap" && e.args == vals).collect();
+    if caps.len() != 2 {
+        return fail(&format!("C09/after-failures/{:?}/arguments-differ", wrapper), d("the direct and the wrapped call must both receive the two values", json!({"invocations_with_these_arguments": caps.len(), "all_capture_invocations": trace.iter().filter(|e| e.cmd == "cap").map(|e| e.args.clone()).collect::<Vec<_>>().into_iter().rev().take(4).collect::<Vec<_>>()})));
+    }
+    let truth = ans == "true";
+    let ok = match wrapper {
+        Wrapper::Alias => ctx.variables.get("r").map(|s| s.as_str()) == Some(ans),
+        Wrapper::Not => ctx.variables.get("r").map(|s| s.as_str()) == Some(if truth { "false" } else { "true" }),
+        _ => trace.iter().filter(|e| e.cmd == "emit" && e.args.first().map(|a| a == "branch").unwrap_or(false)).map(|e| e.args[1].clone()).collect::<Vec<_>>() == vec![if truth { "T" } else { "F" }.to_string()],
+    };
+    if !ok {
+        return fail(&format!("C09/after-failures/{:?}/outcome-differs", wrapper), d("result is not the one the answer determines", json!({"answer": ans, "r": ctx.variables.get("r")})));
+    }
+    Verdict::Pass(Some(fp(&(failures, use_alias, format!("{:?}", wrapper), &vals))))
+}
+
+fn compose_plain(t: &mut Tape) -> String {
+    let mut v = compose(t);
+    v = v.replace(['\r', '\n', '"', '#'], "_").replace("\\$", "\\_").replace("\\%", "\\_").replace("${", "$_").replace("%{", "%_");
+    if known_class(&v, true, true).is_some() || v.is_empty() {
+        "plain".to_string()
+    } else {
+        v
+    }
+}
+
 /// exhaustive grid: single feature values x wrappers x positions (3 arguments, cap predicate)
 fn grid_size() -> u64 {
     (FEATURES.len() * WRAPPERS.len() * 3 * 2) as u64
@@ -478,7 +541,7 @@ fn probe_alias_of_function() -> Option<String> {
 pub fn property() -> Property {
     Property {
         id: "C09",
-        rule: "a predicate (harness capture command under three names, a user function returning a value, a user function ending without a value after a command with a truthy output, equals/contains/starts_with/is_empty) called directly and then wrapped in not / if / elseif / while / a script-level alias (0..2 stored arguments), with 1..4 argument values delivered through variables and composed from 64 feature fragments and hazard strings; the wrapped invocation must receive the same argument vector as the direct one and the branch / not output / alias result must be the one the direct output determines. (grid) every single feature x wrapper x argument position x {capture, user function} exhaustively. (sequences) 2..5 wrapped invocations in one run (each its own wrapper, capture or user function, with or without a preceding direct call) whose argument lists are equal to an earlier one, or the same text cut at other boundaries, or fresh: each must receive the list written for it and decide by its own answer. Values falling in a class listed in KNOWN_FINDINGS.txt are counted separately (excluded_known) and re-confirmed by probes; everything else is strict. Non-trivial: a value that is empty or has a non-alphanumeric character, outside the known classes; distinct by (wrapper, predicate, values)",
+        rule: "a predicate (harness capture command under three names, a user function returning a value, a user function ending without a value after a command with a truthy output, equals/contains/starts_with/is_empty) called directly and then wrapped in not / if / elseif / while / a script-level alias (0..2 stored arguments), with 1..4 argument values delivered through variables and composed from 64 feature fragments and hazard strings; the wrapped invocation must receive the same argument vector as the direct one and the branch / not output / alias result must be the one the direct output determines. (grid) every single feature x wrapper x argument position x {capture, user function} exhaustively. (after-failures) 1..100 alias / not calls whose rebuilt line cannot be parsed (known class leading-quote, outcome not judged) followed by one strict wrapped call; (sequences) 2..5 wrapped invocations in one run (each its own wrapper, capture or user function, with or without a preceding direct call) whose argument lists are equal to an earlier one, or the same text cut at other boundaries, or fresh: each must receive the list written for it and decide by its own answer. Values falling in a class listed in KNOWN_FINDINGS.txt are counted separately (excluded_known) and re-confirmed by probes; everything else is strict. Non-trivial: a value that is empty or has a non-alphanumeric character, outside the known classes; distinct by (wrapper, predicate, values)",
         assumptions: &[
             "the eval command itself is not a wrapper here (it is documented to expand what it is given)",
             "known classes are predicates on the final value: cr-or-lf, leading-quote, quote-with-space, hash-without-space, backslash-before-dollar-or-percent, expansion-opener, trailing-whitespace-in-last-argument, equals-leading-first-argument",
@@ -498,6 +561,15 @@ pub fn property() -> Property {
                 },
                 case: case_sequence,
                 min_classes: &[("same-text-cut-at-other-boundaries", 5000), ("same-arguments-again", 5000)],
+            },
+            Section {
+                name: "after-failures",
+                plan: |t| match t {
+                    Tier::Quick => Plan::Random { cases: 3_000, max_len: 40 },
+                    Tier::Thorough => Plan::Random { cases: 100_000, max_len: 40 },
+                },
+                case: case_after_failures,
+                min_classes: &[("at-least-64-failed-wrapped-calls-before", 500)],
             },
             Section {
                 name: "random",
